@@ -149,6 +149,7 @@ type Report struct {
 	Dist        map[string]int // input distribution counters
 	Violations  []Violation
 	KnownHits   map[string]int
+	KnownFirst  map[string]map[string]string // finding id -> first case of this run that matched its signature
 	KnownSeen   map[string]string // finding id -> what (example still failing)
 	Notes       []string
 	Extra       map[string]any
@@ -163,7 +164,7 @@ type TieStat struct {
 
 func NewReport(prop, tier string, seed uint64) *Report {
 	return &Report{Property: prop, Tier: tier, Seed: seed, Start: time.Now(), distinct: map[string]bool{}, Ties: map[string]*TieStat{},
-		Dist: map[string]int{}, KnownHits: map[string]int{}, KnownSeen: map[string]string{}, Extra: map[string]any{}}
+		Dist: map[string]int{}, KnownHits: map[string]int{}, KnownFirst: map[string]map[string]string{}, KnownSeen: map[string]string{}, Extra: map[string]any{}}
 }
 
 func (r *Report) Tie(name string) *TieStat {
@@ -173,6 +174,14 @@ func (r *Report) Tie(name string) *TieStat {
 		r.Ties[name] = t
 	}
 	return t
+}
+
+// Known records a case explained by an open finding.
+func (r *Report) Known(f *Finding, example map[string]string) {
+	r.KnownHits[f.ID]++
+	if r.KnownFirst[f.ID] == nil {
+		r.KnownFirst[f.ID] = example
+	}
 }
 
 // Case counts one evaluated case; key identifies it for distinctness; nontrivial per the check's rule.
@@ -271,6 +280,7 @@ func (r *Report) Finish(proofFile string) int {
 		"ties":                r.Ties,
 		"input_distribution":  r.Dist,
 		"known_finding_hits":  r.KnownHits,
+		"known_finding_first": r.KnownFirst,
 		"notes":               r.Notes,
 	}
 	if r.Exhaustive {
